@@ -106,6 +106,8 @@ class RunAnalysisResult:
                 want to do analyses that need to treat missing values
                 differently.
         """
+        if not fill_missing:
+            return self._list_metrics
         return self._list_metrics.fillna(self._defaults)
 
     def list_summary(self, *keys: str) -> pd.DataFrame:
